@@ -123,6 +123,46 @@ def redirectsOn (c : Config) (s : Server) (d : Name) : Bool :=
 def servedPort (c : Config) (d : Name) (p : Nat) : Bool :=
   c.servers.any fun s => redirectsOn c s d && s.listen.any fun a => decide (a.sp = p)
 
+/-! ### "the same servers, routes and policies" -/
+
+def lookupSrv (k : Nat) : List (Nat × SrvOut) → Option SrvOut
+  | [] => none
+  | kv :: rest => if kv.1 = k then some kv.2 else lookupSrv k rest
+
+/-- an observation of server `k` of a result (`none` when there is no such server) -/
+def obsAt {α} (r : Result) (k : Nat) (f : SrvOut → α) : Option α := (lookupSrv k r.servers).map f
+
+def samePolicy (p p' : Policy) : Prop :=
+  p.subjects.Perm p'.subjects ∧ p.issuers = p'.issuers ∧ p.managers = p'.managers
+
+/-- same length, pairwise `samePolicy` -/
+def samePolicies : List Policy → List Policy → Prop
+  | [], [] => True
+  | p :: ps, q :: qs => samePolicy p q ∧ samePolicies ps qs
+  | _, _ => False
+
+/-- two provisioning results are the same up to what a map iteration order may legitimately
+    permute (order of `allCertDomains`, of a policy's subjects, of the hosts inside a redirect
+    route, of the listen list of the generated server, grouping of redirect routes that sit
+    next to each other) — and answer every request for a name with the same redirect -/
+structure SameResult (r r' : Result) : Prop where
+  certs : ∀ d, d ∈ r.certs ↔ d ∈ r'.certs
+  policies : samePolicies r.policies r'.policies
+  disabled : ∀ k, obsAt r k (·.disabled) = obsAt r' k (·.disabled)
+  tls : ∀ k, obsAt r k (·.tls) = obsAt r' k (·.tls)
+  listen : ∀ k a, obsAt r k (fun s => s.listen.contains a) = obsAt r' k (fun s => s.listen.contains a)
+  skeleton : ∀ k, obsAt r k (fun s => skeleton s.routes) = obsAt r' k (fun s => skeleton s.routes)
+  redir : ∀ k d p, obsAt r k (fun s => hasRedir s.routes d p) = obsAt r' k (fun s => hasRedir s.routes d p)
+  redirAny : ∀ k p, obsAt r k (fun s => hasRedirAny s.routes p) = obsAt r' k (fun s => hasRedirAny s.routes p)
+  effective : ∀ k d, obsAt r k (fun s => effective d s.routes) = obsAt r' k (fun s => effective d s.routes)
+
+/-- the redirect clause at full strength: a request for a redirect-enabled name is answered,
+    by some resulting server, with a redirect naming (by the port rule) a port the name is
+    served on -/
+def RedirectRight (c : Config) (servers : List (Nat × SrvOut)) : Prop :=
+  ∀ s ∈ c.servers, ∀ d, redirectsOn c s d = true →
+    ∃ kv ∈ servers, ∃ p, effective d kv.2.routes = some p ∧ ∃ q, servedPort c d q = true ∧ p = portRule c q
+
 /-! ### where the result depends on the iteration order of the servers map -/
 
 /-- the server reaches the redirect part of the main loop -/
